@@ -120,12 +120,6 @@ def main(argv=None):
     pre = getattr(hmod, "pre_run", None)
     extra_results = pre(a.tier) if pre else []
     results = []
-    if specs:
-        ctx = mp.get_context("spawn")
-        with cf.ProcessPoolExecutor(max_workers=max(1, min(a.jobs, len(specs))), mp_context=ctx) as ex:
-            futs = [ex.submit(_worker, s) for s in specs]
-            for f in futs:
-                results.append(f.result())
     known = load_known()
     out_dir = os.path.join(HERE, "replays", prop)
     violations, known_hits, mismatches, inconclusive = [], {}, [], []
@@ -134,12 +128,16 @@ def main(argv=None):
     functions, samples, per_harness = set(), [], []
     xtot = {"tried": 0, "agree": 0, "unknown": 0, "disagree": 0}
     exhaustive = True
-    for r in results + extra_results:
+    cut_short = []
+    announced = set()
+
+    def handle(r):
+        nonlocal exhaustive, samples, functions
         sp = r["spec"]
         tag = "%s%s" % (sp["func"], json.dumps(sp["cfg"], sort_keys=True))
         if "engine_error" in r:
             inconclusive.append("engine error in %s: %s" % (tag, r["engine_error"]))
-            continue
+            return
         for k in ("paths", "obligations", "discharged", "syntactic", "reach", "infeasible",
                   "paths_with_obligations"):
             tot[k] += r.get(k, 0)
@@ -166,7 +164,7 @@ def main(argv=None):
                 violations.append(v)
             for m in r.get("inconclusive", []):
                 inconclusive.append(m)
-            continue
+            return
         if r["reach"] == 0 and not r["cex"]:
             inconclusive.append("vacuous harness (no path reached an obligation): %s" % tag)
         for u in r["undecided"]:
@@ -211,6 +209,47 @@ def main(argv=None):
                 mismatches.append({"harness": tag, "obligation": c["name"], "kind": c["kind"],
                                    "detail": c.get("detail", ""), "replay_said": rr,
                                    "traceback": c.get("traceback", "")})
+
+    grace = float(os.environ.get("SYMX_GRACE_S", "90" if a.tier == "quick" else "600"))
+    if specs:
+        ctx = mp.get_context("spawn")
+        ex = cf.ProcessPoolExecutor(max_workers=max(1, min(a.jobs, len(specs))), mp_context=ctx)
+        futs = {ex.submit(_worker, sp_): sp_ for sp_ in specs}
+        pending = set(futs)
+        deadline = None
+        while pending:
+            done, pending = cf.wait(pending, timeout=5, return_when=cf.FIRST_COMPLETED)
+            for f in done:
+                r = f.result()
+                results.append(r)
+                handle(r)
+            if violations and deadline is None:
+                # a replayed, unlisted violation decides the run (exit 1): the remaining instances get a grace
+                # period and are then stopped, so that a change which also makes the solver slow is reported in
+                # bounded time.  (Never taken on a tree where the property holds.)
+                deadline = time.time() + grace
+            for v in violations:
+                if v["replay"] not in announced and len(announced) < 4:
+                    print("VIOLATION property=%s replay=%s" % (prop, v["replay"]), flush=True)
+                    announced.add(v["replay"])
+            if deadline is not None and time.time() > deadline and pending:
+                for f in pending:
+                    f.cancel()
+                    cut_short.append("%s%s" % (futs[f]["func"], json.dumps(futs[f]["cfg"], sort_keys=True)))
+                procs = list(getattr(ex, "_processes", {}).values())
+                ex.shutdown(wait=False, cancel_futures=True)
+                for pr in procs:
+                    try:
+                        pr.kill()
+                    except Exception:
+                        pass
+                pending = set()
+        if not cut_short:
+            ex.shutdown(wait=True)
+    for r in extra_results:
+        handle(r)
+    for t in cut_short[:20]:
+        inconclusive.append("not finished (run stopped %ds after a confirmed violation): %s" % (grace, t))
     wall = time.time() - t0
     # ---- report
     for what, path in known_hits.items():
@@ -221,7 +260,8 @@ def main(argv=None):
         if key in seen:
             continue
         seen.add(key)
-        print("VIOLATION property=%s replay=%s" % (prop, v["replay"]))
+        if v["replay"] not in announced:
+            print("VIOLATION property=%s replay=%s" % (prop, v["replay"]))
         print("  harness=%s obligation=%s detail=%s" % (v["harness"], v["obligation"], v["detail"]))
     for m in mismatches[:10]:
         print("ENCODING-MISMATCH property=%s harness=%s obligation=%s kind=%s detail=%s replay=%s" % (
